@@ -12,11 +12,11 @@ From Verif Require Import Base.Common Gen.Consts_default Model.C03 Proofs.C03.
 (* Registration succeeds exactly for acceptable, not-yet-taken ids while there is room; then the new account (id as
    typed, hash of the password, e-mail) goes into the first free slot of the table after the clean-up, and nothing
    else changes (see C03_slot_frame_register); otherwise it is refused and every slot is as before. *)
-Theorem C03_register_exact : forall c name pw email h, gen pw = Ok h ->
+Theorem C03_register_exact : forall c name pw email,
   let rc := register c name pw email in
   if acceptable c name && negb (taken c name) && room c
   then exists k, find_empty (slots (after_clean c)) = Some k /\ fst rc = ROk (cid name) /\
-       slots (snd rc) = set_nth k (mkAcct (cid name) h (cstr_field (Z.to_nat ptttype.EMAILSZ) email) false false) (slots (after_clean c))
+       slots (snd rc) = set_nth k (mkAcct (cid name) (gen pw) (cstr_field (Z.to_nat ptttype.EMAILSZ) email) false false) (slots (after_clean c))
   else (exists e, fst rc = RErr e) /\ slots (snd rc) = slots c.
 Proof. exact register_exact. Qed.
 Print Assumptions C03_register_exact.
@@ -60,10 +60,11 @@ Theorem C03_check_passwd_exact : forall c name pw,
 Proof. exact check_pw_exact. Qed.
 Print Assumptions C03_check_passwd_exact.
 
-(* "the current password": a generated hash verifies exactly the passwords with the same key block (and nothing at
-   all when the password starts with NUL: the all-zero hash) *)
-Theorem C03_current_password : forall pw h pw', gen pw = Ok h ->
-  (verify h pw' = true <-> hd 0 pw <> 0 /\ kb pw = kb pw').
+(* "the current password": a generated hash verifies exactly the passwords with the same key block — and nothing at
+   all when the password is empty or starts with NUL: GenPasswd answers the all-zero hash for those (it used to
+   panic on the empty one), registration and password change store it, and the account can no longer log in *)
+Theorem C03_current_password : forall pw pw',
+  verify (gen pw) pw' = true <-> hd 0 pw <> 0 /\ kb pw = kb pw'.
 Proof. exact verify_gen. Qed.
 Print Assumptions C03_current_password.
 
@@ -72,10 +73,10 @@ Print Assumptions C03_current_password.
 Theorem C03_change_needs_old : forall c name old new,
   let rc := change_pw c name old new in
   (forall p, fst rc = ROk p ->
-     exists k h, lookup (slots c) (cid name) = Some k /\ id_valid name = true /\
-       verify (a_pw (nth k (slots c) no_acct)) old = true /\ gen new = Ok h /\
+     exists k, lookup (slots c) (cid name) = Some k /\ id_valid name = true /\
+       verify (a_pw (nth k (slots c) no_acct)) old = true /\
        let a := nth k (slots c) no_acct in
-       slots (snd rc) = set_nth k (mkAcct (a_id a) h (a_email a) (a_old a) (a_xempt a)) (slots c)) /\
+       slots (snd rc) = set_nth k (mkAcct (a_id a) (gen new) (a_email a) (a_old a) (a_xempt a)) (slots c)) /\
   ((forall k, lookup (slots c) (cid name) = Some k -> verify (a_pw (nth k (slots c) no_acct)) old = false) ->
      (exists e, fst rc = RErr e) /\ snd rc = c).
 Proof. exact change_needs_old. Qed.
@@ -101,8 +102,8 @@ Print Assumptions C03_slot_frame_register.
 
 (* end to end, in any letter case of the id: after a successful registration a login under any spelling of the id
    succeeds exactly with a password that has the registered password's key block, and answers the registered spelling *)
-Theorem C03_register_then_login : forall c name pw email h name' pw',
-  gen pw = Ok h -> acceptable c name && negb (taken c name) && room c = true ->
+Theorem C03_register_then_login : forall c name pw email name' pw',
+  acceptable c name && negb (taken c name) && room c = true ->
   id_valid name' = true -> key (cid name') = key (cid name) ->
   let c' := snd (register c name pw email) in
   (fst (login c' name' pw') = ROk (cid name) <-> hd 0 pw <> 0 /\ kb pw = kb pw') /\
@@ -110,15 +111,141 @@ Theorem C03_register_then_login : forall c name pw email h name' pw',
 Proof. exact register_then_login. Qed.
 Print Assumptions C03_register_then_login.
 
-(* Over histories. The full refinement statement of DESIGN —
-     C03_refines : forall c ops, WF c -> let (rs, c') := run c ops in
-        exists a', spec_run (abs c) ops rs a' /\ forall k, abs c' k = a' k
-   with abs c : case-folded id -> option (uid, account) and spec_run the relational account-map machine
-   (registration may take ANY free uid) — is not proved here. What is proved for every history of any length: ids
-   stay distinct up to letter case and the table keeps its size, so that every per-operation theorem above applies
-   at every step with [lookup] being THE account of that case-folded id (C03_lookup_unique); the correspondence run
-   by the check compares the model with the server after every step of every history. *)
-Theorem C03_refines_partial : forall ops c, WF c ->
+(* ================================================================== refinement to the account map
+
+   The specification (Proofs/C03_refine.v). A state [sst] is a map [s_map : case-folded id -> option account] (account
+   = registered spelling, key block of the current password or None "nothing verifies", e-mail, slot, the two facts
+   expiry reads) plus the table size, the reserved ids and the .fresh throttle; states with the same accounts are the
+   same state ([seq]). [sstep s o r s'] = request [o] in state [s] is answered [r] and leaves [s']:
+     register     — RErr for an id that is not [id_acceptable]; RErr for one whose folded id is in the map; otherwise
+                    on the accounts [cleaned] (the map itself, or — table full and not throttled — the map without
+                    the [expired] accounts, throttle set): ROk with the new account (id as typed, [gen] of the
+                    password, e-mail, slot = the least unused slot) added under the folded id, or RErr when every
+                    slot is used;
+     login        — ROk (registered spelling) iff the id is well-formed, in the map, and the account is guest or the
+                    password verifies; only the account's last-login age is reset;
+     check-passwd — ROk iff well-formed, in the map and the password verifies; no change;
+     change-passwd— the same test on the old password; then the account's password becomes [gen new];
+     change-email, exists, get-user, hour — lookups under the folded id / the throttle.
+   [srun] = histories. [abs c] reads the map off the concrete table: the account under key i is the first slot whose
+   non-empty id case-folds to i, with that slot's index. [WF c] = the ids of the table are distinct up to letter case
+   (true of any table built by registrations; preserved by every step: C03_history_invariant). *)
+
+(* C03_refines: over any history of requests, from any table with case-distinct ids, the answers of the concrete
+   model (the one run against the server) are answers the account-map specification gives from [abs] of the initial
+   table, and the final table abstracts to the specification's final state. *)
+Theorem C03_refines : forall ops c, WF c ->
+  srun (abs c) ops (fst (run c ops)) (abs (snd (run c ops))).
+Proof. exact run_refines. Qed.
+Print Assumptions C03_refines.
+
+(* the step it is built from: each concrete step returns the specification's answer and commutes with [abs] *)
+Theorem C03_refines_step : forall c o, WF c ->
+  exists s', sstep (abs c) o (fst (step c o)) s' /\ seq s' (abs (snd (step c o))).
+Proof. exact step_refines. Qed.
+Print Assumptions C03_refines_step.
+
+(* "the spec's answer" is unique: for every state and request the specification allows one answer and one successor,
+   so C03_refines pins every concrete answer down *)
+Theorem C03_spec_deterministic : forall s o r1 s1 r2 s2, sstep s o r1 s1 -> sstep s o r2 s2 -> r1 = r2 /\ s1 = s2.
+Proof. exact sstep_det. Qed.
+Print Assumptions C03_spec_deterministic.
+
+(* the same one layer higher: a request through the gin handlers ([api_step]: the model the check runs for one
+   history in five) is answered as the specification behind the handlers' guard answers it — changing the password
+   or e-mail of the literal id guest is refused before the accounts are asked, every refusal is one status *)
+Theorem C03_refines_api_step : forall c o, WF c ->
+  exists s', sapi_step (abs c) o (fst (api_step c o)) s' /\ seq s' (abs (snd (api_step c o))).
+Proof. exact api_step_refines. Qed.
+Print Assumptions C03_refines_api_step.
+
+(* [abs] yields a finite map of accounts: every account sits under its own case-folded id, in a slot of the table,
+   and no two accounts share a slot *)
+Theorem C03_abs_account_map : forall c, WF c -> sinv (abs c).
+Proof. exact abs_inv. Qed.
+Print Assumptions C03_abs_account_map.
+
+(* histories keep the hypothesis of all of the above: ids stay distinct up to letter case, the table keeps its size *)
+Theorem C03_history_invariant : forall ops c, WF c ->
   WF (snd (run c ops)) /\ length (slots (snd (run c ops))) = length (slots c).
 Proof. intros ops c W. exact (conj (run_WF ops c W) (run_length ops c)). Qed.
-Print Assumptions C03_refines_partial.
+Print Assumptions C03_history_invariant.
+
+(* ---- the corollaries the property text names, on the account map (s = abs of the table before, s' = after) *)
+
+(* registration exactness: accepted exactly for an acceptable id (well-formed, not new/guest/reserved in any letter
+   case) not in the map while there is room (the table is not full, or the clean-up may run and some account is
+   expired); then the new account is added under its folded id in the least free slot of the cleaned map; refused
+   otherwise, and then every account is as before *)
+Theorem C03_register_exact_accounts : forall c n p e, WF c ->
+  let s := abs c in let rc := register c n p e in let s' := abs (snd rc) in
+  (fst rc = ROk (cid n) \/ exists err, fst rc = RErr err) /\
+  (fst rc = ROk (cid n) <-> id_acceptable (s_resv s) n = true /\ s_map s (fold_id n) = None /\ room_spec s) /\
+  (fst rc = ROk (cid n) -> exists s1 k, cleaned s s1 /\ least_free s1 k /\
+     forall i, s_map s' i = upd (s_map s1) (fold_id n)
+                 (Some (mkSA (cid n) (gen p) (cstr_field (Z.to_nat ptttype.EMAILSZ) e) k false false)) i) /\
+  ((exists err, fst rc = RErr err) -> forall i, s_map s' i = s_map s i).
+Proof. exact register_exact_accounts. Qed.
+Print Assumptions C03_register_exact_accounts.
+
+(* login exactness: accepted exactly for a well-formed id of an account whose current password is presented (guest
+   needs none); answers the registered spelling; a refusal changes nothing; no other account changes and the named
+   one keeps id, password, e-mail and slot *)
+Theorem C03_login_exact_accounts : forall c n p, WF c ->
+  let s := abs c in let rc := login c n p in let s' := abs (snd rc) in
+  (forall x, fst rc = ROk x <->
+     id_valid n = true /\ exists a, s_map s (fold_id n) = Some a /\
+       (eqbl (s_id a) ptttype.STR_GUEST = true \/ verify (s_pw a) p = true) /\ x = shown (s_id a)) /\
+  ((exists x, fst rc = ROk x) \/ (fst rc = RErr E_USERID /\ forall i, s_map s' i = s_map s i)) /\
+  (forall i, i <> fold_id n -> s_map s' i = s_map s i) /\
+  (forall a, s_map s (fold_id n) = Some a -> exists a', s_map s' (fold_id n) = Some a' /\
+     s_id a' = s_id a /\ s_pw a' = s_pw a /\ s_email a' = s_email a /\ s_slot a' = s_slot a).
+Proof. exact login_exact_accounts. Qed.
+Print Assumptions C03_login_exact_accounts.
+
+(* password-check exactness (no guest bypass), and it never changes an account *)
+Theorem C03_check_passwd_exact_accounts : forall c n p, WF c ->
+  let s := abs c in let rc := check_pw c n p in
+  (fst rc = ROk [] <-> id_valid n = true /\ exists a, s_map s (fold_id n) = Some a /\ verify (s_pw a) p = true) /\
+  (fst rc = ROk [] \/ exists err, fst rc = RErr err) /\
+  forall i, s_map (abs (snd rc)) i = s_map s i.
+Proof. exact check_pw_exact_accounts. Qed.
+Print Assumptions C03_check_passwd_exact_accounts.
+
+(* a password change needs the old password and replaces it: accepted exactly when the account's current password is
+   presented as the old one; then that account's password — nothing else of it, and no other account — becomes the
+   hash of the new one (with C03_current_password: the new password verifies from then on, unless it is empty or
+   NUL-leading, in which case nothing does); a refusal changes no account *)
+Theorem C03_change_needs_old_accounts : forall c n old new, WF c ->
+  let s := abs c in let rc := change_pw c n old new in let s' := abs (snd rc) in
+  (fst rc = ROk [] <-> id_valid n = true /\ exists a, s_map s (fold_id n) = Some a /\ verify (s_pw a) old = true) /\
+  (fst rc = ROk [] \/ exists err, fst rc = RErr err) /\
+  (forall a, fst rc = ROk [] -> s_map s (fold_id n) = Some a ->
+     s_map s' (fold_id n) = Some (mkSA (s_id a) (gen new) (s_email a) (s_slot a) (s_old a) (s_xempt a)) /\
+     forall i, i <> fold_id n -> s_map s' i = s_map s i) /\
+  ((exists err, fst rc = RErr err) -> forall i, s_map s' i = s_map s i).
+Proof. exact change_needs_old_accounts. Qed.
+Print Assumptions C03_change_needs_old_accounts.
+
+(* only the account named changes: every request other than a registration leaves all accounts but (at most) one as
+   they are, and that one keeps its registered id and its slot (with C03_slot_frame: in the table, one slot) ... *)
+Theorem C03_accounts_frame : forall c o, WF c -> (forall n p e, o <> ORegister n p e) ->
+  exists i, same_but i (abs c) (abs (snd (step c o))).
+Proof. exact accounts_frame. Qed.
+Print Assumptions C03_accounts_frame.
+
+(* ... and a registration leaves every account other than the new one as it is, except that on a full, unthrottled
+   table the expired accounts are removed *)
+Theorem C03_register_frame_accounts : forall c n p e, WF c ->
+  let s := abs c in let s' := abs (snd (register c n p e)) in
+  forall i, i <> fold_id n ->
+    s_map s' i = s_map s i \/
+    (full s /\ s_thr s = false /\ exists a, s_map s i = Some a /\ expired a = true /\ s_map s' i = None).
+Proof. exact register_frame_accounts. Qed.
+Print Assumptions C03_register_frame_accounts.
+
+(* the empty password (and one that starts with NUL): the hash generated for it verifies nothing, so an account
+   registered with it, or changed to it, exists and cannot log in — the behaviour of the code as it stands *)
+Theorem C03_empty_password_locks : forall pw pw', hd 0 pw = 0 -> verify (gen pw) pw' = false.
+Proof. exact gen_empty_locks. Qed.
+Print Assumptions C03_empty_password_locks.
